@@ -230,8 +230,8 @@ Theorem momo_never_table_full c (h : Z -> Z) : cfg_valid c -> forall s k v bud s
         (Binv_of (c_bound c)) s ->
   step_gen c h s (OInsert k v bud) = (s', RExn) ->
   ~ (count s < capacity s) /\
-  (calc_capacity (c_pol c) (c_cap c) (2 ^ newLog BS (c_logStart c) (shift_fn (c_pol c) (c_cap c)) (gens s)) <= count s \/
-   max_log < newLog BS (c_logStart c) (shift_fn (c_pol c) (c_cap c)) (gens s)).
+  match reserve_log (calc_capacity (c_pol c) (c_cap c)) 64 (newLog BS (c_logStart c) (shift_fn (c_pol c) (c_cap c)) (gens s)) (count s + 1)
+  with Some nl => max_log < nl | None => True end.
 Proof.
   intros V s k v bud s' HR H. unfold step_gen in H.
   eapply (never_table_full BS bs0 _ _ h _ _ (c_wf0 c) _ _ _ _ (calc_capacity (c_pol c) (c_cap c)) _ _ _ (momo_instances_ok c V)); eauto;
@@ -247,4 +247,15 @@ Theorem momo_world_refines_all_histories c (h : Z -> Z) : cfg_valid c -> forall 
 Proof.
   intros V os. unfold wrun_gen, winit_cfg.
   apply (world_refines_all_histories BS bs0 _ _ h _ _ (c_wf0 c) _ _ _ _ (calc_capacity (c_pol c) (c_cap c)) _ _ _ (momo_instances_ok c V)).
+Qed.
+
+(* ALL histories of a pair of containers (no exclusion): a MergeTo interrupted by an exception keeps the union of the contents,
+   every element in exactly one container *)
+Theorem momo_world_traces_all_histories c (h : Z -> Z) : cfg_valid c -> forall os,
+  exists m', wtrace ([], [], None) os (snd (wrun_gen c h winit_cfg os)) m' /\
+    WR BS bs0 (decode_fn (c_bound c)) h (c_cap c) (c_unlimited c) (c_wf0 c) start_fn (next_fn (c_probing c)) max_log (Binv_of (c_bound c))
+       (fst (wrun_gen c h winit_cfg os)) m'.
+Proof.
+  intros V os. unfold wrun_gen, winit_cfg.
+  apply (world_traces_all_histories BS bs0 _ _ h _ _ (c_wf0 c) _ _ _ _ (calc_capacity (c_pol c) (c_cap c)) _ _ _ (momo_instances_ok c V)).
 Qed.
